@@ -20,6 +20,7 @@ import (
 	v1 "k8s.io/api/core/v1"
 	"k8s.io/apimachinery/pkg/api/resource"
 	metav1 "k8s.io/apimachinery/pkg/apis/meta/v1"
+	quotav1 "k8s.io/apiserver/pkg/quota/v1"
 	k8sfeature "k8s.io/apiserver/pkg/util/feature"
 
 	"github.com/koordinator-sh/koordinator/apis/extension"
@@ -178,6 +179,12 @@ func vtC01Apply(gqm *GroupQuotaManager, r []int64) {
 		default:
 			gqm.OnNodeDelete(node)
 		}
+	case 11: // the plugin's EnableMinQuotaScale switch
+		gqm.setScaleMinQuotaEnabled(r[1] != 0)
+	case 12: // set the cluster total (possibly below the sum of the mins: min-quota scaling kicks in)
+		gqm.UpdateClusterTotalResource(quotav1.Subtract(vtC01RL(r[1], r[2]), gqm.GetClusterTotalResource()))
+	case 13: // RefreshRuntime: rewrites AutoScaleMin / runtime, must not touch the accounting figures
+		gqm.RefreshRuntime(vtC01QName(r[1]))
 	}
 }
 
@@ -270,6 +277,7 @@ type vtC01Gen struct {
 	in     []int64
 	nops   int
 	deep   bool
+	scale  bool // min-quota scaling enabled: cluster total squeezes and runtime refreshes are generated
 	pods   map[int64]*vtC01GenPod
 	quotas map[int64]*vtC01GenQuota
 	big    bool
@@ -391,7 +399,7 @@ func (g *vtC01Gen) newQuota() bool {
 	if len(ps) > 1 && g.r.Intn(3) != 0 { // prefer a real parent over the root: deeper trees
 		par = ps[1+g.r.Intn(len(ps)-1)]
 	}
-	q := &vtC01GenQuota{parent: par, isParent: g.r.Intn(2) == 0 || (g.deep && len(g.quotas) < 2), lend: g.r.Intn(3) != 0,
+	q := &vtC01GenQuota{parent: par, isParent: g.r.Intn(2) == 0 || (g.deep && len(g.quotas) < 2), lend: g.r.Intn(3) != 0 && !(g.scale && g.r.Intn(2) == 0),
 		maxc: g.amount(30), maxm: g.amount(30), mc: g.amount(12), mm: g.amount(12)}
 	g.emitQuota(id, q)
 	return true
@@ -528,15 +536,30 @@ func (g *vtC01Gen) podOp() bool {
 	return true
 }
 
+// squeeze sets the cluster total to a small amount (usually below the sum of the sibling mins, so that
+// the scale-min manager shrinks AutoScaleMin) and refreshes the runtime of every quota, bottom-up order
+// not required; later pod events then walk paths whose AutoScaleMin differs from Min.
+func (g *vtC01Gen) squeeze() {
+	g.emit(12, g.r.Int63n(25), g.r.Int63n(25))
+	for _, id := range g.userQuotas() {
+		if g.r.Intn(4) != 0 {
+			g.emit(13, id)
+		}
+	}
+}
+
 func vtC01Gen_(r *rand.Rand, i int) (string, []int64) {
-	style := []string{"small", "small", "big", "deep", "deep"}[r.Intn(5)]
-	g := &vtC01Gen{r: r, pods: map[int64]*vtC01GenPod{}, quotas: map[int64]*vtC01GenQuota{}, big: style == "big", deep: style == "deep"}
+	style := []string{"small", "small", "big", "deep", "deep", "scale", "scale"}[r.Intn(7)]
+	g := &vtC01Gen{r: r, pods: map[int64]*vtC01GenPod{}, quotas: map[int64]*vtC01GenQuota{}, big: style == "big", deep: style == "deep" || style == "scale", scale: style == "scale"}
 	hdr := []int64{1 << 50, 1 << 50, 1 << 50, 1 << 50, 0}
 	if r.Intn(3) == 0 { // a default quota that limits
 		hdr[2], hdr[3] = r.Int63n(20), r.Int63n(20)
 	}
 	g.in = append(g.in, hdr...)
 	g.gqm = vtC01NewManager(hdr)
+	if g.scale {
+		g.emit(11, 1)
+	}
 	target := 6 + r.Intn(12)
 	nq := 2 + r.Intn(4)
 	if style == "deep" {
@@ -547,6 +570,8 @@ func vtC01Gen_(r *rand.Rand, i int) (string, []int64) {
 	}
 	for tries := 0; g.nops < target && tries < 200; tries++ {
 		switch x := r.Intn(40); {
+		case g.scale && x < 4:
+			g.squeeze()
 		case x < 24:
 			g.podOp()
 		case x < 27:
@@ -557,6 +582,8 @@ func vtC01Gen_(r *rand.Rand, i int) (string, []int64) {
 			g.deleteQuota()
 		case x < 38:
 			g.emit(9)
+		case g.scale:
+			g.squeeze()
 		default:
 			g.emit(10, int64(r.Intn(3)), int64(1+r.Intn(2)), r.Int63n(100), r.Int63n(100))
 		}
